@@ -380,7 +380,8 @@ class Sandbox:
 
     def __init__(self, world, tag="w"):
         Sandbox._counter += 1
-        self.base = os.path.join(SCRATCH_BASE, "fsim.%d.%d" % (os.getpid(), Sandbox._counter))
+        # constant-length scratch path: output sizes and link-text lengths must not depend on pid digits
+        self.base = os.path.join(SCRATCH_BASE, "fsim.%07d.%07d" % (os.getpid() % 10 ** 7, Sandbox._counter % 10 ** 7))
         if os.path.exists(self.base):
             shutil.rmtree(self.base, ignore_errors=True)
         os.makedirs(self.base)
